@@ -61,7 +61,7 @@ import (
 
 func TestMain(m *testing.M) { ev.Main(m) }
 
-var rec = ev.For("C17", "gopcua client channel vs reference server and gopcua server channel vs reference client (pkg/refcodec keeps every token's keys), 5 secured policies x {Sign, SignAndEncrypt}, token lifetime 400 ms - 1.5 s, 1-3 renewals (the client's own timer, Renew(), or the reference client) plus keep-alive renewals, then a well-formed chunk secured with a drawn superseded token's keys and the next sequence number at a drawn time before / around / after that token's expiry (creation + 1.25 x lifetime), followed by a control chunk secured with the current token; non-trivial = the stale chunk was written after the drawn renewals and its fate was observed (delivered, or not delivered while the control chunk was); distinct by hash of the case")
+var rec = ev.For("C17", "gopcua client channel vs reference server and gopcua server channel vs reference client (pkg/refcodec keeps every token's keys), 5 secured policies x {Sign, SignAndEncrypt}, token lifetime 400 ms - 1.5 s (a quarter of the cases: per-token lifetimes L..5L with the victim at L and an older token at 3L-5L, so that tokens expire out of issue order), 1-3 renewals (the client's own timer, Renew(), or the reference client) plus keep-alive renewals, then a well-formed chunk secured with a drawn superseded token's keys and the next sequence number at a drawn time before / around / after that token's expiry (creation + 1.25 x lifetime), followed by a control chunk secured with the current token; non-trivial = the stale chunk was written after the drawn renewals and its fate was observed (delivered, or not delivered while the control chunk was); distinct by hash of the case")
 
 // ---------------------------------------------------------------------------
 // Case (plain data)
@@ -71,6 +71,7 @@ type caseT struct {
 	Policy     string `json:"policy"`        // URI fragment of a secured policy
 	Encrypt    bool   `json:"encrypt"`       // SignAndEncrypt instead of Sign
 	LifetimeMS int    `json:"lifetime_ms"`   // requested = granted token lifetime
+	LifesMS    []int  `json:"lifetimes_ms,omitempty"` // per token (0 = first): server kind: the lifetime the reference client requests; client kind: the lifetime the reference server grants (revised). Missing entries = lifetime_ms
 	Renewals   int    `json:"renewals"`      // renewals driven by the case before the injection (more follow from the 0.75 L rule while waiting)
 	GapsMS     []int  `json:"renew_gaps_ms"` // per renewal: delay after the previous token was issued; -1 = at 0.75 L (client kind: the client's own timer)
 	Victim     int    `json:"victim"`        // index (0 = first token) of the superseded token whose keys secure the stale chunk
@@ -105,6 +106,14 @@ const (
 
 func (c caseT) lifetime() time.Duration { return time.Duration(c.LifetimeMS) * time.Millisecond }
 
+// lifeMS is the lifetime of the idx-th token of the case.
+func (c caseT) lifeMS(idx int) int {
+	if idx < len(c.LifesMS) {
+		return c.LifesMS[idx]
+	}
+	return c.LifetimeMS
+}
+
 func (c caseT) refPolicy() (*refcodec.Policy, refcodec.Mode) {
 	if c.Encrypt {
 		return refcodec.PolicyByURI(c.Policy), refcodec.ModeSignAndEncrypt
@@ -128,12 +137,19 @@ func (c caseT) valid() error {
 		return fmt.Errorf("policy %q", c.Policy)
 	case c.LifetimeMS < 200 || c.LifetimeMS > 60000:
 		return fmt.Errorf("lifetime %d ms", c.LifetimeMS)
+	case len(c.LifesMS) > c.Renewals+1:
+		return fmt.Errorf("%d lifetimes for %d tokens", len(c.LifesMS), c.Renewals+1)
 	case c.Renewals < 1 || c.Renewals > 8 || len(c.GapsMS) != c.Renewals:
 		return fmt.Errorf("%d renewals with %d gaps", c.Renewals, len(c.GapsMS))
 	case c.Victim < 0 || c.Victim >= c.Renewals:
 		return fmt.Errorf("victim %d of %d renewals is not superseded", c.Victim, c.Renewals)
 	case c.ChannelID == 0 || c.TokenBase == 0:
 		return fmt.Errorf("channel / token id 0")
+	}
+	for _, l := range c.LifesMS {
+		if l < 200 || l > 60000 {
+			return fmt.Errorf("lifetime %d ms", l)
+		}
 	}
 	return nil
 }
@@ -393,14 +409,18 @@ func (s *refServer) handleOPN(f []byte) error {
 	if idx == 0 {
 		s.seq = s.c.FirstSeq
 	}
+	revised := req.RequestedLifetime
+	if idx < len(s.c.LifesMS) {
+		revised = uint32(s.c.LifesMS[idx])
+	}
 	// OpenResponse stamps CreatedAt = now, writes the response and derives the keys
-	if _, err := s.sess.OpenResponse(ch.RequestID, s.seq, req.RequestHeader.RequestHandle, nonce(s.c.Seed, idx, s.pol.NonceLen), req.RequestedLifetime); err != nil {
+	if _, err := s.sess.OpenResponse(ch.RequestID, s.seq, req.RequestHeader.RequestHandle, nonce(s.c.Seed, idx, s.pol.NonceLen), revised); err != nil {
 		return err
 	}
 	anchor := time.Now()
 	s.seq++
 	s.tokens = append(s.tokens, tokenRec{ID: s.sess.TokenID, CK: s.sess.ClientKeys, SK: s.sess.ServerKeys,
-		Lifetime: time.Duration(req.RequestedLifetime) * time.Millisecond, Anchor: anchor})
+		Lifetime: time.Duration(revised) * time.Millisecond, Anchor: anchor})
 	select {
 	case s.notify <- struct{}{}:
 	default:
@@ -563,7 +583,7 @@ func runClient(c caseT) (o outcome) {
 			}
 		}
 		// g < 0: the client's own timer renews at 0.75 L
-		if !srv.waitTokens(i+1, L+waitBound) {
+		if !srv.waitTokens(i+1, time.Duration(c.lifeMS(i-1))*time.Millisecond+L+waitBound) {
 			select {
 			case e := <-srv.done:
 				o.infra = fmt.Sprintf("renewal #%d did not reach the reference server, which ended: %v", i, e)
@@ -760,7 +780,8 @@ func runServer(c caseT) (o outcome) {
 	var tokens []tokenRec
 	open := func() error {
 		idx := len(tokens)
-		if _, err := s.OpenRequest(reqID, seq, idx > 0, nonce(c.Seed, idx, pol.NonceLen), uint32(c.LifetimeMS)); err != nil {
+		want := time.Duration(c.lifeMS(idx)) * time.Millisecond
+		if _, err := s.OpenRequest(reqID, seq, idx > 0, nonce(c.Seed, idx, pol.NonceLen), uint32(c.lifeMS(idx))); err != nil {
 			return err
 		}
 		seq++
@@ -771,8 +792,8 @@ func runServer(c caseT) (o outcome) {
 		}
 		anchor := time.Now()
 		lt := time.Duration(resp.SecurityToken.RevisedLifetime) * time.Millisecond
-		if lt < L {
-			lt = L // never judge earlier than the lifetime the client asked for
+		if lt < want {
+			lt = want // never judge earlier than the lifetime the client asked for
 		}
 		tokens = append(tokens, tokenRec{ID: s.TokenID, CK: s.ClientKeys, SK: s.ServerKeys, Lifetime: lt, Anchor: anchor})
 		return nil
@@ -785,9 +806,9 @@ func runServer(c caseT) (o outcome) {
 		o.infra = fmt.Sprintf("server issued channel id %d", s.ChannelID)
 		return
 	}
-	renewAfter := time.Duration(float64(L) * 0.75)
+	renewAfter := func(t tokenRec) time.Duration { return time.Duration(float64(t.Lifetime) * 0.75) }
 	for i := 1; i <= c.Renewals; i++ {
-		g := renewAfter
+		g := renewAfter(tokens[i-1])
 		if c.GapsMS[i-1] >= 0 {
 			g = time.Duration(c.GapsMS[i-1]) * time.Millisecond
 		}
@@ -809,7 +830,7 @@ func runServer(c caseT) (o outcome) {
 	target := victim.expiry().Add(time.Duration(c.OffsetMS) * time.Millisecond)
 	// a real client keeps renewing at 0.75 L, so that the current token is alive at the control
 	for {
-		due := tokens[len(tokens)-1].Anchor.Add(renewAfter)
+		due := tokens[len(tokens)-1].Anchor.Add(renewAfter(tokens[len(tokens)-1]))
 		if !due.Before(target.Add(-50 * time.Millisecond)) {
 			break
 		}
@@ -918,7 +939,56 @@ func execute(c caseT) outcome {
 // ---------------------------------------------------------------------------
 // Generator
 
+// genMixed: the tokens of one channel have different lifetimes, the victim a
+// short one and an older token a long one, so that tokens do not expire in the
+// order in which they were issued (added after seeded change C17-B).
+func genMixed(t *rapid.T) caseT {
+	var c caseT
+	c.Kind = rapid.SampledFrom([]string{"client", "server"}).Draw(t, "kind")
+	c.Policy = rapid.SampledFrom(secPolicies).Draw(t, "policy")
+	c.Encrypt = rapid.Bool().Draw(t, "encrypt")
+	L := rapid.IntRange(400, 900).Draw(t, "l")
+	c.LifetimeMS = L
+	c.Renewals = rapid.IntRange(2, 3).Draw(t, "renewals")
+	c.Victim = rapid.IntRange(1, c.Renewals-1).Draw(t, "victim")
+	for i := 0; i <= c.Renewals; i++ {
+		c.LifesMS = append(c.LifesMS, L*rapid.SampledFrom([]int{1, 2, 3, 4}).Draw(t, "mult"))
+	}
+	c.LifesMS[c.Victim] = L
+	c.LifesMS[rapid.IntRange(0, c.Victim-1).Draw(t, "longOlder")] = L * rapid.IntRange(3, 5).Draw(t, "longMult")
+	sumAfter := 0
+	for i := 1; i <= c.Renewals; i++ {
+		g := rapid.IntRange(20, L/5).Draw(t, "gap")
+		c.GapsMS = append(c.GapsMS, g)
+		if i > c.Victim {
+			sumAfter += g
+		}
+	}
+	if rapid.IntRange(0, 4).Draw(t, "timing") == 0 {
+		c.Timing = "before"
+		hi := L*5/4 - sumAfter - 60
+		if hi < 151 {
+			hi = 151
+		}
+		c.OffsetMS = -rapid.IntRange(150, hi).Draw(t, "offBefore")
+	} else {
+		c.Timing = "after"
+		c.OffsetMS = rapid.IntRange(300, 800).Draw(t, "offAfter")
+	}
+	c.ChannelID = rapid.Uint32Range(1, 1<<24).Draw(t, "channel")
+	c.TokenBase = rapid.Uint32Range(1, 1<<24).Draw(t, "token")
+	for i := 0; i < 4; i++ {
+		c.TokenSteps = append(c.TokenSteps, rapid.SampledFrom([]int{1, 1, 2, 7, 1000}).Draw(t, "step"))
+	}
+	c.FirstSeq = rapid.Uint32Range(1, 100000).Draw(t, "seq")
+	c.Seed = rapid.Uint32().Draw(t, "seed")
+	return c
+}
+
 func genCase(t *rapid.T) caseT {
+	if rapid.IntRange(0, 3).Draw(t, "mixedLifetimes") == 0 {
+		return genMixed(t)
+	}
 	var c caseT
 	c.Kind = rapid.SampledFrom([]string{"client", "server"}).Draw(t, "kind")
 	c.Policy = rapid.SampledFrom(secPolicies).Draw(t, "policy")
@@ -1006,6 +1076,9 @@ func record(c caseT, o outcome) {
 		fmt.Sprintf("renewals-by:%s/%s", c.Kind, driven),
 		fmt.Sprintf("retained:%s/%s/%v", c.Kind, o.timing, o.retained == 1),
 		fmt.Sprintf("intent:%s->%s", c.Timing, o.timing),
+	}
+	if len(c.LifesMS) > 0 {
+		classes = append(classes, "mixed-lifetimes:"+c.Kind+"/"+o.timing+"(victim expires before an older token)")
 	}
 	if o.timing == "after" {
 		classes = append(classes, fmt.Sprintf("after:%s/stale-%s", cfg, o.stale))
